@@ -421,11 +421,11 @@ class Report:
     def known_finding(self, finding, what):
         if finding["id"] not in self.known:
             self.known[finding["id"]] = what
-            log("KNOWN-FINDING: property=%s %s %s" % (self.pid, finding.get("class", ""), what))
+            log("KNOWN-FINDING: property=%s %s %s" % (self.pid, finding["id"], what))
 
     def match_finding(self, cls):
         for f in self.findings:
-            if f.get("class") == cls:
+            if cls in f.get("classes", []) or f.get("class") == cls:
                 return f
         return None
 
@@ -454,9 +454,10 @@ class Report:
             "violations": len(self.violations),
             "known_findings": sorted(self.known.keys()),
         }
-        with open(os.path.join(EVIDENCE, self.pid + ".json"), "w") as f:
-            json.dump(ev, f, indent=1, sort_keys=True)
-            f.write("\n")
+        if not getattr(self, "replay_mode", False):
+            with open(os.path.join(EVIDENCE, self.pid + ".json"), "w") as f:
+                json.dump(ev, f, indent=1, sort_keys=True)
+                f.write("\n")
         if self.violations:
             if len(self.violations) > 20:
                 log("(%d further violations not listed)" % (len(self.violations) - 20))
